@@ -140,15 +140,15 @@ class Custom(Sub):
 
     def cases(self, tier, unit):
         for i in range(len(PATTERNS)):
-            for shadow in (0, 1, 2, 3):
+            for shadow in (0, 1, 2, 3, 4, 5):
                 yield [i, shadow]
 
     def check(self, env, case):
         i, shadow = case
         text = PATTERNS[i]
         # 1: MAX and ABS are built-ins, the custom ones must win; 2, 3: other identifier-shaped names
-        fname = ('SUMSQ', 'MAX', '_SQ', 'f_1.x')[shadow]
-        gname = ('GN', 'ABS', 'G_', '__g')[shadow]
+        fname = ('SUMSQ', 'MAX', '_SQ', 'f_1.x', 'max', 'Fq')[shadow]
+        gname = ('GN', 'ABS', 'G_', '__g', 'abs', 'Gq')[shadow]
         text = text.replace('GN(', gname + '(').replace('FN(', fname + '(')
         log = []
 
@@ -160,6 +160,22 @@ class Custom(Sub):
         def gn(*args):
             log.append(['G', enc(list(args))])
             return 7
+        if shadow == 5:
+            # callables that are FALSY objects (an empty dict-based memoiser, a lazily filled table with __len__)
+            class Table(dict):
+                def __init__(self, f):
+                    dict.__init__(self)
+                    self.f = f
+
+                def __call__(self, *a):
+                    return self.f(*a)
+            fn, gn = Table(fn), Table(gn)
+        if shadow == 4:
+            # 4: lower-case spellings of built-in names are names of their own: the built-ins stay what they are
+            chk = env.evo('MAX(1,5)&"|"&ABS(0-3)', funcs={fname: fn, gname: gn})
+            del log[:]
+            if chk != ['v', '5|3']:
+                return fail('with custom functions registered as %r and %r the built-ins MAX(1,5)&"|"&ABS(0-3) give %r' % (fname, gname, chk), '5|3', chk)
         out = env.evo(text, vars={'va': 5}, funcs={fname: fn, gname: gn}, cells={'A1': 9})
         if text.count(fname + '(') + text.count(gname + '(') >= 2:
             env.nt()
@@ -199,9 +215,57 @@ EXPECT = {
     'FN(A1)': ([['F', [9]]], 109),
     'FN(1,,3)': ([['F', [1, None, 3]]], 104),
     '{1,2}': ([], [1, 2]),
+    'FN({5})': ([['F', [[5]]]], 100),
     'FN(1)=FN(1)': ([['F', [1]], ['F', [1]]], False),
     'GN(FN(1))+FN(GN(2))': ([['F', [1]], ['G', [101]], ['G', [2]], ['F', [7]]], 7 + 407),
 }
+
+
+class StrictArgs(Sub):
+    name = 'c09.strict_args'
+    rule = ('a custom function that REJECTS what it is given (raises, or returns an error value, for a list argument) x the '
+            'argument as a one-item literal array, a one-cell range, a one-item host list, a 2-item array, a scalar x bare / '
+            'under IFERROR / next to another call: it is called exactly once per call site with the evaluated argument, and its '
+            'error is the call\'s value - no second attempt with the argument re-shaped; non-trivial = all')
+    min_cases = 10
+    min_nontrivial = 10
+
+    def cases(self, tier, unit):
+        for how in ('raises', 'returns'):
+            for ai in range(5):
+                for ctx in range(3):
+                    yield [how, ai, ctx]
+
+    def check(self, env, case):
+        how, ai, ctx = case
+        env.nt()
+        log = []
+        E = env.err
+
+        def chk(x):
+            log.append(enc(x))
+            if isinstance(x, list):
+                if how == 'raises':
+                    raise ValueError('one value, please')
+                return E.XLError('#VALUE!')
+            return x
+        arg, want_arg = [('{5}', [5]), ('B7:B7', [[5]]), ('xone', [5]), ('{5,6}', [5, 6]), ('5', 5)][ai]
+        text = ['CHK(%s)', 'IFERROR(CHK(%s),"rejected")', 'CHK(1)+CHK(%s)'][ctx] % arg
+        out = env.evo(text, vars={'xone': [5]}, funcs={'CHK': chk}, cells={'B7:B7': [[5]]})
+        want_log = ([1] if ctx == 2 else []) + [want_arg]
+        if log != want_log:
+            return fail('%r: the custom function was called with %r, expected %r (once per call site, the evaluated arguments)' % (
+                text, log, want_log), want_log, log)
+        is_list = isinstance(want_arg, list)
+        if ctx == 1:
+            ok = out == (['v', 'rejected'] if is_list else ['v', 5])
+        elif ctx == 2:
+            ok = (out[0] == 'e') if is_list else out == ['v', 6]
+        else:
+            ok = (out[0] == 'e') if is_list else out == ['v', 5]
+        if not ok:
+            return fail('%r where the custom function %s for a list: outcome %r' % (text, how + (' an error' if how == 'returns' else ''), out), None, out)
+        return None
 
 
 class Documented(Sub):
@@ -478,4 +542,4 @@ class NameScale(Sub):
         return None
 
 
-SUBS = [Names(), Values(), Custom(), Documented(), Predefined(), Unknown(), Rebind(), NameScale()]
+SUBS = [Names(), Values(), Custom(), StrictArgs(), Documented(), Predefined(), Unknown(), Rebind(), NameScale()]
